@@ -16,8 +16,13 @@ class DataFrame:
             return df
     sparse = _Sparse()
 
-    def to_csv(self, fp, sep=','):
-        raise NotImplementedError
+    def to_csv(self, fp=None, *args, **kw):
+        """recorded, not performed: the text pandas writes for a frame is pandas' business; which options it is asked to apply
+        (separator, float_format, columns, index, ...) is the caller's"""
+        CSV_CALLS.append((self, fp, args, dict(kw)))
+
+
+CSV_CALLS = []
 
 
 def install():
